@@ -9,8 +9,11 @@ is a pair of such numbers.  The C code allocates them from the counter `jsgf_t.n
 `fsg_model_trans_add`, `fsg_model_null_trans_add` and keeps them in `fsg_model_t.n_state/start_state/final_state` and
 `fsg_link_t.from_state/to_state`.  `Generated/JsgfWidths.lean` is regenerated on every run from the current headers
 (compiled `sizeof` / signedness; prototypes compared by the compiler); the theorem below says that each of these
-carriers holds every value of the allocating counter unchanged — so two states the model distinguishes are never
-identified by the code, for grammars of ANY size the counter can count.  A narrowed carrier (state numbers stored
+LISTED carriers holds every value of the allocating counter unchanged (the list is written by hand in
+tools/gen_jsgfwidths.py; its completeness is trusted: locals such as `lastnode`, the `int` results of
+`expand_rhs`/`expand_rule` and casts are not enumerated, and a prototype is read as 32 bits by matching `int`/`int32`
+in its text) — so two states the model distinguishes are not identified by any listed carrier, for grammars of any
+size the counter can count.  A narrowed carrier (state numbers stored
 modulo 2^16: start and final state merged with ordinary states, the FSG accepts proper prefixes / suffixes of
 sentences) makes the `decide` fail.  The check also expands grammars with more than 2^16 (thorough: 2^17) states in
 every run and evaluates the language on the produced FSG (tools/props/c05.py, big_grammar_family).
@@ -92,8 +95,9 @@ function parameter through which a state number of the expansion travels from th
 `fsg_model_init`, `fsg_model_t.n_state/start_state/final_state`, `fsg_model_(null_/tag_)trans_add`,
 `fsg_link_t.from_state/to_state`) is a signed integer at least as wide as the counter: converting any value `q` of
 the counter's range (and the marker `-1`) to the carrier's type gives `q` back.  So distinct states of the model
-(unbounded naturals) stay distinct states of the FSG for expansions of any size the counter can count.  The widths
-are regenerated from the current headers on every run. -/
+(unbounded naturals) are not merged by any LISTED carrier, for expansions of any size the counter can count
+(completeness of the list is trusted, see the file header).  The widths are regenerated from the current headers on
+every run. -/
 theorem C05_state_integer_widths :
     ∃ rb, widthOf stateRef = some (rb, true) ∧ ∀ c ∈ stateCarriers, ∃ b, widthOf c = some (b, true) ∧
       ∀ q : Int, -((2 ^ (rb - 1) : Nat) : Int) ≤ q → q < ((2 ^ (rb - 1) : Nat) : Int) → cconvS b q = q :=
